@@ -127,7 +127,7 @@ Proof.
   destruct Hr as (R & B1 & B2 & C1 & C2).
   destruct (channel_run_succeeds o L md5 Hmd p rate bps ch R B1 B2 C1 C2 wo total w chunks Hwf Hnew Hchunks Hfit Hm Hlen Htot) as [f Hrun].
   destruct (e2e_channel_pcm o L md5 Hmd p rate bps wo ch total w chunks f Hwf Hnew Hchunks Hrun Hfit Hlen)
-    as (blocks & Hdec & Hst & Hok & Hshape & Htotal & Hsc & Hlt).
+    as (blocks & Hdec & Hst & Hok & Hshape & Htotal & Hsc & Hlt & _).
   exists f, blocks. split; [exact Hrun|]. split; [exact Hdec|]. cbv zeta.
   fold all in Hst.
   assert (Fbl : Forall (fun b : list (list Z) => length b = N.to_nat ch) blocks).
@@ -290,7 +290,7 @@ Proof.
   destruct Hr as (R & B1 & B2 & C1 & C2).
   destruct (byte_run_succeeds o L md5 Hmd p rate bps ch R B1 B2 C1 C2 en wo total w chunks Hwf Hnew Hbytes Hfit HW Hlen Htot) as [f Hrun].
   destruct (e2e_byte_pcm o L md5 Hmd p rate bps en wo ch total w chunks f Hwf Hnew Hrun Hbytes Hfit Hlen)
-    as (blocks & Hdec & Hcat & Hok & Hshape & Htotal & Hsc & Hlt).
+    as (blocks & Hdec & Hcat & Hok & Hshape & Htotal & Hsc & Hlt & _).
   exists f, blocks. split; [exact Hrun|]. split; [exact Hdec|]. cbv zeta.
   fold nb samples in Hcat.
   set (c := N.to_nat ch) in *. set (n := N.to_nat nb) in *. set (q := (length samples / c)%nat) in *.
